@@ -22,6 +22,7 @@ theorem invoke_operands (tag : Name) (key : MKey) (mv : MV) (self : AV) (args : 
   intro e he hkey
   cases mv with
   | fn b => simp [invoke, invokeAt] at he; subst he; simp
+  | native v => simp [invoke, invokeAt] at he; subst he; simp
   | nonCallable => simp [invoke, invokeAt] at he
   | chain mids fin =>
     unfold invoke invokeAt at he
@@ -183,6 +184,7 @@ theorem invoke_events (tag : Name) (key : MKey) (mv : MV) (self : AV) (args : Li
   intro e he
   cases mv with
   | fn b => simp [invoke, invokeAt] at he; exact Or.inl he
+  | native v => simp [invoke, invokeAt] at he; exact Or.inl he
   | nonCallable => simp [invoke, invokeAt] at he
   | chain mids fin =>
     unfold invoke invokeAt at he
@@ -426,6 +428,7 @@ theorem invoke_trace_le_one (tag : Name) (key : MKey) (mv : MV) (self : AV) (arg
     (invoke tag key mv self args).1.length ≤ 1 := by
   cases mv with
   | fn b => simp [invoke, invokeAt]
+  | native v => simp [invoke, invokeAt]
   | nonCallable => simp [invoke, invokeAt]
   | chain mids fin =>
     unfold invoke invokeAt
